@@ -42,6 +42,10 @@ class Fn:
     def local_ty(self, l):
         return self.locals[l]["ty"] if l < len(self.locals) else "?"
 
+    def local_closures(self, l):
+        """ids of closure/coroutine bodies mentioned in the type of local l"""
+        return self.locals[l].get("cl", []) if l < len(self.locals) else []
+
     def local_name(self, l):
         return self.locals[l].get("name") if l < len(self.locals) else None
 
